@@ -242,6 +242,74 @@ def cli_copy_eval(doc):
     return None, n
 
 
+# ---- XML attributes are mappings too: every attribute order in the file --------------------------------------------------
+XML_ATTRS = [('id', '1'), ('href', 'a'), ('x:href', 'bb'), ('y:id', '2'), ('class', 'c')]
+
+
+def xml_attr_cases(tier):
+    k = 3
+    sets = [list(c) for n in (2, k) for c in itertools.combinations(range(len(XML_ATTRS)), n)]
+    for sa in sets:
+        for sb in sets:
+            for ds in DICT_STRATEGIES:
+                yield {'xml_attrs': [sa, sb], 'ds': ds}
+
+
+def xml_text(attr_indexes, inner=False):
+    attrs = ' '.join(f'{XML_ATTRS[i][0]}="{XML_ATTRS[i][1]}"' for i in attr_indexes)
+    el = f'<e {attrs}/>'
+    return f'<r xmlns:x="urn:x" xmlns:y="urn:y">{el}</r>' if inner else f'<e xmlns:x="urn:x" xmlns:y="urn:y" {attrs}/>'
+
+
+def xml_attr_eval(case):
+    from graphtage import graphtage as gg
+    sa, sb = case['xml_attrs']
+    ds = case['ds']
+    opt = build_options((ds, 'on'))
+    dirp = pairspace.tmpdir()
+    n = 0
+    try:
+        with time_limit(CASE_TIMEOUT):
+            for inner in (False, True):
+                ref = None
+                first_a = None
+                for pa in itertools.permutations(sa):
+                    fa = cli.write_file(dirp, 'xa.xml', xml_text(pa, inner))
+                    ta = gg.FILETYPES_BY_TYPENAME['xml'].build_tree(fa, opt)
+                    if first_a is None:
+                        first_a = ta
+                    else:
+                        n += 1
+                        if int(first_a.diff(ta).edited_cost()) != 0:
+                            return {'key': f'permuted_copy_not_equal @ xml loader : dict={ds}',
+                                    'detail': f'{xml_text(tuple(sa), inner)} vs {xml_text(pa, inner)}'}, n
+                    for pb in itertools.permutations(sb):
+                        fb = cli.write_file(dirp, 'xb.xml', xml_text(pb, inner))
+                        tb = gg.FILETYPES_BY_TYPENAME['xml'].build_tree(fb, opt)
+                        e = ta.edits(tb)
+                        refine(e)
+                        tighten_fully(e)
+                        got = (int(e.bounds().upper_bound), h(loose_script(e)))
+                        n += 1
+                        if ref is None:
+                            ref = (got, pa, pb)
+                        elif got[0] != ref[0][0]:
+                            return {'key': f'cost_depends_on_key_order @ xml loader : dict={ds}',
+                                    'detail': f'{xml_text(ref[1], inner)} -> {xml_text(ref[2], inner)} costs {ref[0][0]}; '
+                                              f'{xml_text(pa, inner)} -> {xml_text(pb, inner)} costs {got[0]}'}, n
+                        elif got[1] != ref[0][1]:
+                            return {'key': f'pairing_depends_on_key_order @ xml loader : dict={ds}',
+                                    'detail': f'{xml_text(pa, inner)} -> {xml_text(pb, inner)}: same cost {got[0]}, different pairing'}, n
+            return None, n
+    except CaseTimeout:
+        return {'key': f'timeout @ diff : xml attributes, dict={ds}', 'detail': json.dumps(case)}, n
+    except ScriptError as se:
+        return {'key': f'script_malformed {se.kind} @ {se.site} : xml attributes', 'detail': f'{case}: {se}'}, n
+    except Exception as ex:  # noqa
+        import traceback
+        return {'key': f'exception {type(ex).__name__} @ {site_of(ex)} : xml attributes, dict={ds}', 'detail': json.dumps(case) + traceback.format_exc()[-1000:]}, n
+
+
 # ---- canonical order of keys of any kind ---------------------------------------------------------------------------------
 # keys of every kind the Python API accepts (encoded for JSON: tuples as {'t': [...]}, bytes as {'y': 'text'})
 KEY_KINDS = [9, 10, '1a', '9', 1.5, True, None, {'t': [1]}, {'t': ['a']}, {'t': [1, 2]}, 'x', {'y': 'x'}, 'ListNode', 'None',
@@ -293,6 +361,16 @@ def key_order_eval(sub):
 
 def _shard(i, n, tier, payload):
     r = Result()
+    for idx, case in enumerate(xml_attr_cases(tier)):
+        if idx % n != i:
+            continue
+        fail, k = xml_attr_eval(case)
+        r.evaluations += k
+        r.extra['xml_attribute_order_diffs'] = r.extra.get('xml_attribute_order_diffs', 0) + k
+        if fail:
+            r.fail(fail['key'], case, fail['detail'], order=4 * 10 ** 7 + idx)
+        elif k:
+            r.outcomes.add(h(('xml_attrs', idx)))
     for idx, sub in enumerate(key_order_cases(tier)):
         if idx % n != i:
             continue
@@ -342,6 +420,8 @@ def run(ctx):
 def replay(case):
     if 'key_kinds' in case:
         return key_order_eval(case['key_kinds'])[0]
+    if 'xml_attrs' in case:
+        return xml_attr_eval(case)[0]
     if 'swap_doc' in case:
         return swap_eval(case['swap_doc'])[0]
     if 'cli_doc' in case:
